@@ -255,7 +255,11 @@ pub fn reverse_position_reply(
         swap.trader.clone(),
     )?;
 
-    let previous_margin = Integer::new_negative(position.margin);
+    // the margin released by the closed leg is net of the funding accrued on it since its checkpoint
+    let RemainMarginResponse {
+        funding_payment, ..
+    } = calc_remain_margin_with_funding_payment(deps.as_ref(), position.clone(), Integer::zero())?;
+    let previous_margin = Integer::new_negative(position.margin) + funding_payment;
 
     // reset the position in order to reverse
     position = clear_position(env, position)?;
